@@ -3616,7 +3616,7 @@ type Distinct struct {
 
 // String returns a string representation of the expression.
 func (d *Distinct) String() string {
-	return fmt.Sprintf("DISTINCT %s", d.Val)
+	return fmt.Sprintf("DISTINCT %s", QuoteIdent(d.Val))
 }
 
 // NewCall returns a new call expression from this expressions.
